@@ -297,6 +297,8 @@ pub fn encoded_interesting(enc: &[u8]) -> Vec<usize> {
 /// What an interpreter run observed (used for classification).
 #[derive(Clone, Debug, Default)]
 pub struct Obs {
+    /// Zero-length calls made between pieces.
+    pub empty_calls: usize,
     pub pieces: usize,
     pub methods_used: std::collections::BTreeSet<&'static str>,
     pub drains_done: usize,
@@ -484,6 +486,31 @@ pub fn run_encoder(plain: &[u8], pre: &[u8], side: &Side, check_stream: bool) ->
     for (i, piece) in pieces.iter().enumerate() {
         piece_end += piece.len();
         let is_last = i + 1 == n_pieces;
+        // Between pieces, sometimes a call with nothing in it (a zero-length piece is a piece):
+        // it must change nothing, in particular not forget a held-back FE.
+        if i > 0 && (i + side.cuts.len() + side.drains.len()) % 3 == 1 {
+            obs.empty_calls += 1;
+            match (i + side.methods.len()) % 4 {
+                0 => encoder.encode(&plain[pos..pos]),
+                1 => encoder.encode_copy(&[]),
+                2 => {
+                    let mut src: &[u8] = &[];
+                    let anchored = encoder
+                        .read_n(&mut src, 0, NonZeroUsize::new(1).unwrap())
+                        .map_err(|e| Fail::new("encode:read_n-error", format!("read_n of zero bytes failed: {e}")))?;
+                    encoder.encode_anchored(anchored);
+                }
+                _ => {
+                    let mut src: &[u8] = &plain[pos..];
+                    let n = encoder
+                        .encode_read(&mut src, 0, NonZeroUsize::new(2).unwrap())
+                        .map_err(|e| Fail::new("encode:read-error", format!("encode_read of zero bytes failed: {e}")))?;
+                    if n != 0 || src.len() != plain.len() - pos {
+                        return Err(Fail::new("encode:read-count", format!("encode_read of zero bytes returned {n} and consumed {} bytes of the reader", plain.len() - pos - src.len())));
+                    }
+                }
+            }
+        }
         while pos < piece_end || (piece.is_empty() && pos == piece_end) {
             let chunk = &plain[pos..piece_end];
             let m = if side.methods.is_empty() { &Method::Borrow } else { &side.methods[i % side.methods.len()] };
@@ -643,6 +670,31 @@ pub fn run_decoder_pre(stream: &[u8], pre: &[u8], side: &Side, check_stream: boo
     let mut piece_end = 0usize;
     for (i, piece) in pieces.iter().enumerate() {
         piece_end += piece.len();
+        if i > 0 && (i + side.cuts.len() + side.drains.len()) % 3 == 1 {
+            obs.empty_calls += 1;
+            let r = match (i + side.methods.len()) % 4 {
+                0 => decoder.decode(&stream[pos..pos]).map_err(|e| e.to_string()),
+                1 => decoder.decode_copy(&[]).map_err(|e| e.to_string()),
+                2 => {
+                    let mut src: &[u8] = &[];
+                    let anchored = decoder
+                        .read_n(&mut src, 0, NonZeroUsize::new(1).unwrap())
+                        .map_err(|e| Fail::new("decode:read_n-error", format!("read_n of zero bytes failed: {e}")))?;
+                    decoder.decode_anchored(anchored).map_err(|e| e.to_string())
+                }
+                _ => {
+                    let mut src: &[u8] = &stream[pos..];
+                    match decoder.decode_read(&mut src, 0, NonZeroUsize::new(2).unwrap()) {
+                        Ok(n) if n == 0 && src.len() == stream.len() - pos => Ok(()),
+                        Ok(n) => return Err(Fail::new("decode:read-count", format!("decode_read of zero bytes returned {n} and consumed {} bytes of the reader", stream.len() - pos - src.len()))),
+                        Err(e) => Err(e.to_string()),
+                    }
+                }
+            };
+            if let Err(e) = r {
+                return Ok(DecRun { result: Err(format!("(in a zero-length call) {e}")), obs });
+            }
+        }
         while pos < piece_end || (piece.is_empty() && pos == piece_end) {
             let chunk = &stream[pos..piece_end];
             let m = if side.methods.is_empty() { &Method::Borrow } else { &side.methods[i % side.methods.len()] };
